@@ -33,6 +33,8 @@ def run(ctx):
     # ... and with targets that the retargeted queue alone owns: the old target goes away with the change (F50)
     rt += [[ctx.seed * 100 + 80 + i, 1 + i % 2, 6000 if ctx.thorough else 3000, 2] for i in range(4 if ctx.thorough else 2)]
     run_traces(ctx, "c02_retarget", rt, None, None, "L-api retargeted serial queue", "retarget", timeout=200)
+    # a serial queue suspended and resumed by its own running item while other work arrives: the resume does not hand the queue on
+    run_traces(ctx, "c02_selfresume", [[ctx.seed * 10 + i, 120 if ctx.thorough else 40] for i in range(2)], None, None, "L-api self suspend / resume", "selfresume", timeout=60)
     ctx.cov["rule"] = ("tr_lane workloads restricted to the serial queue (plus one mixed run): every item's start/end stamps and every submission's call/return stamps are checked for "
                        "overlap and order; every recorded dq_state transition must be a step of the serial models; c02_mainq: the main queue drained through the run-loop callback with nested callback calls inside items (no overlap, asynchronous items in submission order, exactly once); c02_retarget: two serial queues serve in turn as the target of a third, whose target is changed while sync / async_and_wait / async items run through it and directly on the two (no overlap on either, every call returns, nothing hangs). distinct_nontrivial = transitions explained by the model")
 
